@@ -24,7 +24,7 @@ canon = A.canon_rdr
 
 
 def budget(tier):
-    return 120 if tier == "quick" else 1500
+    return 120 if tier == "quick" else 6000
 
 
 def judge(c_out):
